@@ -63,7 +63,7 @@ Proof.
 Qed.
 
 (* tightness of the two facts: an entropy read or a stale read lets two calls with equal inputs differ *)
-Theorem entropy_admits_difference (v1 v2 : value) : v1 <> v2 ->
+Theorem entropy_allows_difference (v1 v2 : value) : v1 <> v2 ->
   exists (o : op loc value) (s1 s2 : store loc value), s1 LIn = s2 LIn /\ s1 LG = s2 LG /\ s1 LState = s2 LState /\
     In LE (reads o) /\ exec_op loc loc_eqb value o s1 LResult <> exec_op loc loc_eqb value o s2 LResult.
 Proof.
